@@ -89,7 +89,7 @@ def run(
   cfg = cfg or module + ".cfg"
   meta = tempfile.mkdtemp(prefix="tlc-", dir=os.path.join(VERIF, ".cache", "tlc"))
   cwd = SPEC
-  cmd = ["java", "-XX:+UseParallelGC", "-Xmx" + heap] + (jvm or [])
+  cmd = ["java", "-XX:+UseParallelGC", "-Xmx" + heap, "-Djava.io.tmpdir=" + meta] + (jvm or [])
   if gen:
     cwd = os.path.join(meta, "gen")
     os.makedirs(cwd)
